@@ -188,6 +188,10 @@ static void run_history(const char *dir, char **lines, long *lnos, long nlines)
             aid[a] = HXcreate(fid[b], (uint16)c, (uint16)d, fname[NF + e], (int32)g, (int32)h2);
             printf(aid[a] == FAIL ? " fail\n" : " ok\n");
         }
+        else if (!strcmp(op, "hbconvert")) {
+            sscanf(line, "%*s %ld", &a);
+            printf(HBconvert(aid[a]) == FAIL ? " fail\n" : " ok\n");
+        }
         else if (!strcmp(op, "appendable")) {
             sscanf(line, "%*s %ld", &a);
             printf(Happendable(aid[a]) == FAIL ? " fail\n" : " ok\n");
